@@ -1,8 +1,9 @@
 import GoflowModel.Driver.C12
 import GoflowModel.Driver.CQL
+import GoflowModel.Driver.Engine
 open GoflowModel
 
-def handlers : List (List String → Option String) := [Driver.C12.handle, Driver.CQL.handle]
+def handlers : List (List String → Option String) := [Driver.C12.handle, Driver.CQL.handle, Driver.Engine.handle]
 
 def step (line : String) : String :=
   let toks := (line.trimAscii.toString.splitOn " ").filter (· ≠ "")
